@@ -863,6 +863,75 @@ PROPS["C14"] = dict(
 )
 
 
+# ---------------------------------------------------------------------------- C17
+def pred_c17(line, st):
+    """two-party coin flip, judged on the real library's trace (independent of the Lean model):
+    commit-before-reveal order, acceptance iff valid opening of the earlier commitment, coin = sum"""
+    op, a, r = toks(line)
+    if op != "coin.flip2":
+        return None
+    a = [x for x in a if not x.startswith("tag:")]
+    p, q, g, h, c, hc = (int(x) for x in a[:6])
+    peer = plist(a[6])
+    acts, res = plist(r[0]), r[1]
+    st["runs"] = st.get("runs", 0) + 1
+    # 1. order: the first action is a send (the commitment); every later send (the opening)
+    #    comes after the receipt of a commitment that is a member of the order-q subgroup
+    if not acts or not acts[0].startswith("s:"):
+        return "first action is not the own commitment: %s" % acts[:2]
+    C_own = int(acts[0][2:])
+    if C_own != pow(g, c, p) * pow(h, hc, p) % p:
+        return "the first value sent is not the commitment g^c h^hc of the drawn share"
+    for i, x in enumerate(acts[1:], 1):
+        if x.startswith("s:"):
+            prev = acts[1]
+            if not prev.startswith("r:"):
+                return "share revealed (action %d) before any commitment of the peer was received: %s" % (i, acts)
+            Cj = int(prev[2:])
+            if not (0 < Cj < p and pow(Cj, q, p) == 1):
+                return "share revealed after receiving a commitment outside the group"
+    if len(acts) > 2 and acts[2].startswith("s:"):
+        if [acts[2], acts[3]] != ["s:%d" % c, "s:%d" % hc]:
+            return "opening sent is not the committed pair"
+    # 2. acceptance iff a valid, in-range opening of the commitment received first
+    ok = False
+    want = None
+    if len(peer) >= 3 and all(x != "x" for x in peer[:3]):
+        Cj, aj, haj = int(peer[0]), int(peer[1]), int(peer[2])
+        if 0 < Cj < p and pow(Cj, q, p) == 1 and abs(aj) < q and abs(haj) < q \
+                and pow(g, aj, p) * pow(h, haj, p) % p == Cj:
+            ok, want = True, (c + aj) % q
+    if res.startswith("throw") or res == "fail":
+        if ok:
+            return "honest opening refused (%s)" % res
+        st["refused"] = st.get("refused", 0) + 1
+        return None
+    if not ok:
+        return "coin %s returned although the peer's opening does not match its commitment (peer %s)" % (res, peer)
+    if int(res) != want:
+        return "coin %s is not the sum of the shares mod q (%d)" % (res, want)
+    st["accepted"] = st.get("accepted", 0) + 1
+    return None
+
+
+PROPS["C17"] = dict(
+    module="TmcgProps.C17",
+    areas=[("coin", {"quick": 300, "thorough": 6000}, [], "san")],
+    obligations=[("Tmcg.C17.flip2_agree", "full"), ("Tmcg.C17.commit_before_reveal", "full"),
+                 ("Tmcg.C17.commitment_hides", "full"), ("Tmcg.C17.accept_iff", "full"),
+                 ("Tmcg.C17.bad_opening_rejected", "full"), ("Tmcg.C17.commitment_binds", "full")],
+    predicate=pred_c17,
+    level_text="Theorems in Lean 4 about the two-party coin flip as an I/O automaton: both honest parties return the sum of the shares mod q for all coins; for every peer behaviour the own share is "
+               "sent only after a group-member commitment of the peer was received (commit before reveal), the first message hides the share perfectly, a coin is returned iff the peer opened exactly "
+               "its earlier commitment in range, and two different openings of one commitment give log_g h (binding). Correspondence: real Flip_twoparty in both roles against a scripted peer "
+               "(honest, wrong opening, out-of-range, non-member commitment, withheld/unparsable lines) with the byte-level order of reads and writes recorded. "
+               "Partial: the multi-party flip over joint verifiable secret sharing (Flip with RVSS) is not modelled.",
+    level_note=LEVEL_NOTE,
+    assumptions=["partial: multi-party variant (JareckiLysyanskayaEDCF::Flip over RVSS, n>2) not modelled",
+                 "binding is computational: reduction to the discrete logarithm of h to base g, not a probability bound"],
+)
+
+
 # ---------------------------------------------------------------------------- C19
 def hexb(s):
     return b"" if s == "-" else bytes.fromhex(s)
